@@ -19,7 +19,11 @@ KEYS = ['foo', 'x', 'X-Y', 'my-option', 'another_option', 'a1', 'Z', 'pad',
         'section', 'line', 'level', 'options', 'text', 'metadata', 'diff',
         'files', 'meta', 'preamble', 'changes', 'content', 'stats',
         'Encoding', 'LENGTH', 'length2', 'indent-', 'type_', 'formats',
-        'subsections', 'diff_type', 'meta_format', 'preamble_indent']
+        'subsections', 'diff_type', 'meta_format', 'preamble_indent',
+        'max-length', 'xlength', 'content_length', 'my-encoding', 'xindent',
+        'pre-format', 'x-type', 'xversion', 'not_line_endings', 'mimetypes',
+        'Length', 'ENCODING', 'Indent', 'Version', 'Format', 'Type',
+        'Line_Endings', 'MimeType', 'lengthlength', 'length-']
 VALUES = ['v', 'value', '/x', '/', 'a/b', 'text/plain', '1.0', '.', '..',
           'utf-8', 'x' * 120, '0', '7', '007', '-5', '100', 'json', 'unix',
           'dos', 'none', 'None', 'true', '1e3', '0x10', '1.5', 'a-b_c.d/e',
